@@ -10,7 +10,7 @@ BUILT = {
     'C04': ('reference-model monitor: library Paraxial API vs an independent y-nu (ABCD) oracle on generated lenses',
             'Exploration: every paraxial accessor is called on ~700 (quick) / ~48k (thorough) generated lenses plus the '
             'bundled samples and compared with an independent signed-index y-nu oracle evaluated in float64 and '
-            'longdouble; held means no disagreement beyond 1e-9 relative on the lens classes listed in the evidence. '
+            'longdouble; a quarter of the lenses are queried once, edited through the public setters and queried again; held means no disagreement beyond 1e-9 relative on the lens classes listed in the evidence. '
             'Right level because the statement is an equality with a closed-form model over an unbounded input space.',
             'Trusts the oracle (vkit/oracles/paraxial.py, cross-checked float64/longdouble) and the library material '
             'objects for the index of catalogue media; sign of the chief ray is not part of the statement and is not checked.',
